@@ -806,6 +806,112 @@ def r_py_method(rep, f):
      rep.violation(key0, key0 + ":case", "method names are matched case-sensitively: the documented 'Radau' would fall back to the default", ms[0].get("sp")))
 
 
+def _fd_canon(body_fn, e, depth=0):
+    """canonical form of a scalar expression: immutable locals replaced by their definitions, loop variables by J,
+    parameters by (type, position among parameters of that type)"""
+    b = body_fn["body"]
+    while e is not None and (e.get("k") in ("DropTemps", "Paren", "Cast", "AddrOf") or (e.get("k") == "Unary" and e.get("op") == "Deref")):
+        e = e["e"]
+    if e is None or depth > 20:
+        return ("?",)
+    k = e.get("k")
+    if k == "Lit":
+        try:
+            return ("lit", float(str(e.get("v")).replace("_", "")))
+        except ValueError:
+            return ("lit", str(e.get("v")))
+    if k == "Path":
+        if e.get("res") == "local":
+            params = [p for p in body_fn.get("params", []) if p.get("k") == "PBind"]
+            for p in params:
+                if p.get("id") == e.get("id"):
+                    same = [q for q in params if q.get("ty") == p.get("ty")]
+                    return ("param", p.get("ty"), same.index(p))
+            for fo in tast.find(b, lambda z: z.get("k") == "For"):
+                if tast.contains(fo["pat"], lambda z: z.get("k") == "PBind" and z.get("id") == e.get("id")):
+                    return ("J",)
+            lets = tast.find(b, lambda z: z.get("k") == "Let" and z["pat"].get("k") == "PBind" and z["pat"].get("id") == e.get("id") and z.get("init") is not None)
+            if len(lets) == 1 and "Mut" not in (lets[0]["pat"].get("mode") or "").split(",")[-1] and not tast.contains(b, lambda z: z.get("k") in ("Assign", "AssignOp") and z["l"].get("k") == "Path" and z["l"].get("id") == e.get("id")):
+                return _fd_canon(body_fn, lets[0]["init"], depth + 1)
+            return ("local", e.get("name"))
+        return ("def", e.get("def"))
+    if k == "Binary":
+        l, r = _fd_canon(body_fn, e["l"], depth + 1), _fd_canon(body_fn, e["r"], depth + 1)
+        if e["op"] in ("Add", "Mul") and repr(r) < repr(l):
+            l, r = r, l
+        return (e["op"], l, r)
+    if k == "Unary":
+        return (e.get("op"), _fd_canon(body_fn, e["e"], depth + 1))
+    if k == "MethodCall":
+        return ("m:" + (e.get("def") or e.get("name") or ""), _fd_canon(body_fn, e["recv"], depth + 1)) + tuple(_fd_canon(body_fn, a, depth + 1) for a in e["args"])
+    if k == "Call":
+        return ("c:" + (e.get("def") or ""),) + tuple(_fd_canon(body_fn, a, depth + 1) for a in e["args"])
+    if k == "Index":
+        return ("idx", _fd_canon(body_fn, e["e"], depth + 1), _fd_canon(body_fn, e["i"], depth + 1))
+    if k == "Field":
+        return ("fld", e.get("name"), _fd_canon(body_fn, e["e"], depth + 1))
+    return (k,)
+
+
+def r_py_fd_step(rep, f):
+    """the finite-difference Jacobians a Python run can use (the binding's dense fallback, its sparsity-grouped variant) and
+    the Rust default IVP::jac a Rust run uses perturb column j by the same amount: the increment added to y[j] is the same
+    expression of y[j] in all of them, so the no-jac results agree and a sparsity pattern changes only the evaluation count"""
+    key = "R-PY-FD-STEP"
+    fns = [n for n in ("ivp::IVP::jac", "python::ivp_wrapper::PythonIVP::<'py>::jac_fd", "python::ivp_wrapper::PythonIVP::jac_fd", "python::sparsity::sparse_jacobian_fd") if n in f.bodies]
+    fns += [n for n in f.bodies if n.endswith("::jac_fd") and n not in fns]
+    if len(fns) < 3:
+        rep.inconc(key, key + ":anchor", "finite-difference Jacobians not found (%s)" % fns)
+        return
+    forms = {}
+    for fn in fns:
+        b = f.bodies[fn]
+        rep.fn(fn)
+        # y_pert[j] = y[j] + P
+        incs = []
+        for a in tast.find(b["body"], lambda z: z.get("k") == "Assign" and z["l"].get("k") == "Index" and z["r"].get("k") == "Binary" and z["r"]["op"] == "Add"):
+            c = _fd_canon(b, a["r"])
+            base = ("idx", None, ("J",))
+            sides = [c[1], c[2]]
+            ys = [s_ for s_ in sides if s_[0] == "idx" and s_[2] == ("J",) and s_[1][0] == "param"]
+            if len(ys) == 1:
+                other = sides[1] if sides[0] is ys[0] else sides[0]
+                incs.append((other, ys[0], a))
+        if len(incs) != 1:
+            rep.inconc(key, "%s:%s" % (key, fn), "expected one perturbation `yp[j] = y[j] + step` in %s, found %d" % (fn, len(incs)))
+            return
+        forms[fn] = incs[0]
+    ref_fn = fns[0]
+    ref = forms[ref_fn][0]
+    bad = [fn for fn in fns[1:] if forms[fn][0] != ref]
+    def show(c):
+        if not isinstance(c, tuple):
+            return str(c)
+        h = c[0]
+        if h == "lit":
+            return "%g" % c[1] if isinstance(c[1], float) else str(c[1])
+        if h == "param":
+            return "y" if "[f64]" in (c[1] or "") else "p%d" % c[2]
+        if h == "J":
+            return "j"
+        if h == "idx":
+            return "%s[%s]" % (show(c[1]), show(c[2]))
+        if h == "def":
+            return (c[1] or "").rsplit("::", 1)[-1]
+        if h in ("Add", "Sub", "Mul", "Div"):
+            return "(%s %s %s)" % (show(c[1]), {"Add": "+", "Sub": "-", "Mul": "*", "Div": "/"}[h], show(c[2]))
+        if h.startswith("m:"):
+            return "%s.%s(%s)" % (show(c[1]), h.rsplit("::", 1)[-1], ", ".join(show(x) for x in c[2:]))
+        if h.startswith("c:"):
+            return "%s(%s)" % (h.rsplit("::", 1)[-1], ", ".join(show(x) for x in c[1:]))
+        return "%s(%s)" % (h, ", ".join(show(x) for x in c[1:]))
+    for fn in bad:
+        rep.violation(key, "%s:%s" % (key, fn), "%s perturbs y[j] by `%s` while %s uses `%s`: a Python run without `jac` (or with / without `jac_sparsity`) no longer computes the Jacobian the Rust run computes, and the results differ"
+                      % (fn, show(forms[fn][0])[:90], ref_fn, show(ref)[:90]), forms[fn][2].get("sp"))
+    if not bad:
+        rep.ok(key, key, "%d finite-difference Jacobians (%s) add the same increment to y[j]" % (len(fns), ", ".join(x.rsplit("::", 1)[-1] for x in fns)))
+
+
 def run(rep, tier):
     f = facts.load("python")
     rep.rule("R-PY-OPTS", "dict key -> tuple slot of parse_options -> destructured binding -> Options builder setter agree by name; method/t_eval/dense_output reach their setters; one call to solve::solve_ivp")
@@ -829,6 +935,8 @@ def run(rep, tier):
     r_py_float_extract(rep, f)
     rep.rule("R-PY-SPARSITY", "a sparsity pattern stored per column (col_to_rows) is read from SciPy's compressed-sparse-column form (tocsc)")
     r_py_sparsity_format(rep, f)
+    rep.rule("R-PY-FD-STEP", "the dense and the sparsity-grouped finite-difference Jacobians of the binding and the Rust default IVP::jac add the same increment (as an expression of y[j]) to column j")
+    r_py_fd_step(rep, f)
     # the statistics the binding copies are the ones C18 pairs with evaluations (python cfg compiles the same solvers)
     rep.explanation = ("Decides the binding's plumbing tables on the `--features python` build (type-checked without a Python interpreter): option routing, status mapping, array layout, argument passing, "
                        "extrapolating evaluation, method names. NOT decided: numerical equality with the Rust API as an execution through CPython, NumPy dtype conversions, "
